@@ -11,80 +11,43 @@ def c06(entry, clause, quals, what):
     for q in (quals or ['']):
         add('C06', 'C06/%s/%s%s' % (entry, clause, '/' + q if q else ''), what)
 
-c06('SIR_homogeneous_meanfield_from_graph', 'accept:TypeError', ['ic=rho', 'ic=default'],
-    "SIR_homogeneous_meanfield_from_graph(G,tau,gamma,rho=..) / no initial condition raises TypeError: len(initial_recovereds) with initial_recovereds=None (analytic.py:1925)")
-c06('SIR_individual_based_pure_IC', 'accept:EoNError', None,
-    "SIR_individual_based_pure_IC always raises EoNError('cannot define both rho and Y0'): it forwards (nodelist, X0, Y0, tmin, ..) positionally into SIR_individual_based(G,tau,gamma,rho,Y0,X0,nodelist,..) (analytic.py:932)")
-for ent in ('SIS_individual_based', 'SIS_individual_based_pure_IC'):
-    c06(ent, 'accept:IndexError', ['labels=ints', 'labels=str', 'labels=tup'],
-        "%s crashes (IndexError) on graphs whose nodes are not 0..N-1: _dSIS_individual_based_ indexes the state vector by node label, Y[node], Y[nbr] (analytic.py:482)" % ent)
-    for cl in ('bounds:S', 'bounds:I', 'nan', 'conserve'):
-        c06(ent, cl, ['labels=perm'],
-            "%s integrates a wrong system when the integer labels are a permutation of 0..N-1 (Y[node] instead of Y[index of node], analytic.py:482): S/I leave [0,N]" % ent)
-for ent in ('SIS_pair_based', 'SIR_pair_based'):
-    c06(ent, 'accept:TypeError', ['nodelist=1'],
-        "%s(G,tau,gamma,rho=..,nodelist=L) raises TypeError len(None): Y0 is only built from rho when nodelist is None (analytic.py:1238/1543)" % ent)
-for ent in ('SIS_pair_based_pure_IC', 'SIR_pair_based_pure_IC', 'SIS_pair_based', 'SIR_pair_based'):
-    for cl in ('row0:XY', 'row0:XX'):
-        c06(ent, cl, ['nodelist=1'],
-            "%s with a nodelist that is not list(G.nodes()): the initial pair arrays XY0/XX0 are masked with nx.adjacency_matrix(G) in G.nodes() order instead of nodelist order, so row 0 of XY/XX is not P(X_i)P(Y_j) on the edges (analytic.py:1264/1567)" % ent)
+# defects that remain on the current /repo (the others were repaired by fix: commits and are in known_findings.json 'fixed')
 for ent in ('SIS_heterogeneous_pairwise', 'SIS_heterogeneous_pairwise_from_graph'):
-    c06(ent, 'accept:NameError', ['full=1'], "%s(return_full_data=True) raises NameError: name 'kcaount' is not defined (analytic.py:2930)" % ent)
-for ent in ('SIR_heterogeneous_pairwise', 'SIR_heterogeneous_pairwise_from_graph'):
-    for cl in ('row0:SkIl', 'row0:SkSl'):
-        c06(ent, cl, ['full=1'], "%s(return_full_data=True) returns SkSl in the slot named SkIl and vice versa: the solution is unpacked in the opposite order to the packing of X0 (analytic.py:3043-3044)" % ent)
-for ent in ('SIR_compact_pairwise', 'SIR_compact_pairwise_from_graph'):
-    for cl in ('row0:SS', 'row0:SI'):
-        c06(ent, cl, ['full=1'], "%s(return_full_data=True) returns the SI series as SS and the SS series as SI: X0 packs (SS0,SI0,R0) but the result is unpacked as SI,SS,R (analytic.py:3406)" % ent)
-c06('SIS_super_compact_pairwise_from_graph', 'row0:II', ['ic=rho', 'ic=default'],
-    "SIS_super_compact_pairwise_from_graph, rho path: II0 = <k>N - SX0 = rho*<k>N instead of rho^2*<k>N, so SS+2SI+II != <k>N at tmin (analytic.py:3769)")
+    c06(ent, 'accept:ValueError', ['full=1'],
+        "%s(return_full_data=True) raises ValueError (operands could not be broadcast together): IkIl = NkNl - SkSl - SkIl - SkIl.T subtracts "
+        "(kcount,kcount,tcount) arrays from the (kcount,kcount) array NkNl and transposes all three axes (analytic.py:2938)" % ent)
+c06('SIS_heterogeneous_pairwise_from_graph', 'row0:IkIl', ['full=1/regular=1'],
+    "SIS_heterogeneous_pairwise_from_graph(return_full_data=True) on a regular graph (one degree class): the same expression broadcasts and returns a "
+    "(tcount,1,tcount) array in the IkIl slot, not the I-I pair series (analytic.py:2938)")
 for ent in ('SIS_super_compact_pairwise', 'SIS_super_compact_pairwise_from_graph'):
-    c06(ent, 'nan', ['regular=1'], "%s returns NaN on a regular graph: the closure divides by <k^2>-<k>^2 = 0 (analytic.py:3577)" % ent)
-for cl in ('row0:S', 'row0:R', 'row0:S_si'):
-    c06('SIR_effective_degree_from_graph', cl, ['ic=sets+R'],
-        "SIR_effective_degree_from_graph does not pass initial_recovereds to _initialize_node_status_: initially recovered nodes are reported as susceptible at tmin (analytic.py:4278)")
+    c06(ent, 'nan', ['regular=1'], "%s returns NaN on a regular graph: the closure divides by <k^2>-<k>^2 = 0 (analytic.py:3583)" % ent)
 for ent in ('SIS_effective_degree', 'SIS_effective_degree_from_graph'):
-    c06(ent, 'nan', ['SS0=1', 'SI0=1'], "%s returns NaN when the initial state has no S-S pair (tau*ISS*(..)/SS with SS=0) or no S-I pair (ISI/SI with SI=0): 0/0 in _dSIS_effective_degree_ (analytic.py:3936-3939)" % ent)
+    c06(ent, 'nan', ['SS0=1', 'SI0=1'], "%s returns NaN when the initial state has no S-S pair (tau*ISS*(..)/SS with SS=0) or no S-I pair (ISI/SI with SI=0): 0/0 in _dSIS_effective_degree_ (analytic.py:3942-3945)" % ent)
 for ent in ('SIR_effective_degree', 'SIR_effective_degree_from_graph'):
-    c06(ent, 'nan', ['SS0=1'], "%s returns NaN when the initial state has no S-S pair: tau*ISS*(..)/SS with SS=0 in _dSIR_effective_degree_ (analytic.py:3987)" % ent)
+    c06(ent, 'nan', ['SS0=1'], "%s returns NaN when the initial state has no S-S pair: tau*ISS*(..)/SS with SS=0 in _dSIR_effective_degree_ (analytic.py:3993)" % ent)
 for ent in ('SIR_compact_effective_degree', 'SIR_compact_effective_degree_from_graph'):
-    c06(ent, 'nan', ['SS0=1/SI0=1'], "%s returns NaN when no susceptible node has a non-recovered neighbour: effectiveI = SI/Skappa.dot(kappas) = 0/0 (analytic.py:4350)" % ent)
-c06('SIR_heterogeneous_meanfield_from_graph', 'layout', ['full=1'],
-    "SIR_heterogeneous_meanfield_from_graph ignores return_full_data (forwards return_full_data=False): returns times,S,I,R where times,Sk,Ik,Rk is documented (analytic.py:2669)")
-for ent in ('EBCM_pref_mix_discrete', 'EBCM_pref_mix_discrete_from_graph'):
-    c06(ent, 'times', None, "%s ignores tmin: times start at 0 and run to tmax (analytic.py:5520, 5528)" % ent)
-c06('Attack_rate_discrete_from_graph', 'accept:NameError', None, "Attack_rate_discrete_from_graph always raises NameError: name 'PhiS0' is not defined (analytic.py:4791)")
-for ent in ('Attack_rate_discrete_from_graph', 'Attack_rate_cts_time_from_graph'):
-    c06(ent, 'accept:UnboundLocalError', None, "%s with explicit initial sets raises UnboundLocalError/NameError: Sk0 (and SR) are used before assignment (analytic.py:4778/4900)" % ent)
+    c06(ent, 'nan', ['SS0=1/SI0=1'], "%s returns NaN when no susceptible node has a non-recovered neighbour: effectiveI = SI/Skappa.dot(kappas) = 0/0 (analytic.py:4356)" % ent)
+c06('EBCM_discrete_from_graph', 'nan', ['iso=1/p1=1'],
+    "EBCM_discrete_from_graph returns NaN for a graph with isolated nodes once theta reaches 0 (p=1): the degree-0 term k*Pk*Sk0*x**(k-1) is 0*inf (analytic.py:5107)")
+c06('Attack_rate_cts_time_from_graph', 'accept:ZeroDivisionError', ['iso=1/gamma0=1'],
+    "Attack_rate_cts_time_from_graph raises ZeroDivisionError for a graph with isolated nodes and gamma=0: psihatPrime evaluates k*Pk*Sk0*x**(k-1) at x=omega=0 for k=0 (analytic.py:4862)")
+c06('Attack_rate_discrete_from_graph', 'range', ['ic=default/p1=1'],
+    "Attack_rate_discrete_from_graph(G, p=1) without rho / initial sets returns NaN: Epi_Prob_discrete starts at alpha = 1-p = 0 and get_PGFPrime evaluates "
+    "ks*x**(ks-1) at x=0 for k=0, 0*inf (analytic.py:364)")
+for cl in ('range', 'accept:ZeroDivisionError'):
+    c06('Attack_rate_discrete_from_graph', cl, ['iso=1/p1=1'],
+        "Attack_rate_discrete_from_graph with p=1 on a graph with isolated nodes returns NaN (or raises ZeroDivisionError): once theta reaches 0 the degree-0 term "
+        "k*Pk[k]*Sk0[k]*x**(k-1) of psihatPrime is 0*inf (analytic.py:4739)")
 for ent in ('SIS_homogeneous_pairwise_from_graph', 'SIR_homogeneous_pairwise_from_graph', 'SIS_homogeneous_pairwise', 'SIR_homogeneous_pairwise'):
     c06(ent, 'accept:EoNError', ['II0=1'],
-        "%s rejects a consistent state without I-I (and, SIR, without R) pairs by floating-point rounding: SS0+2*SI0 > n*N with n = sum(k*Pk[k]) a rounded float, e.g. 14 > 13.999999999999998 (analytic.py:2032/2122)" % ent)
-
-c06('EBCM_discrete_from_graph', 'nan', ['iso=1/p1=1'],
-    "EBCM_discrete_from_graph returns NaN for a graph with isolated nodes once theta reaches 0 (p=1): the degree-0 term k*Pk*Sk0*x**(k-1) is 0*inf (analytic.py:5097)")
-c06('Attack_rate_cts_time_from_graph', 'accept:ZeroDivisionError', ['iso=1/gamma0=1'],
-    "Attack_rate_cts_time_from_graph raises ZeroDivisionError for a graph with isolated nodes and gamma=0: psihatPrime evaluates k*Pk*Sk0*x**(k-1) at x=omega=0 for k=0 (analytic.py:4852)")
-
-def c14(entry, what, quals, text):
-    for q in quals:
-        add('C14', 'C14/%s/%s/%s' % (entry, what, q), text)
-
-for ent in ('SIS_individual_based', 'SIS_individual_based_pure_IC'):
-    c14(ent, 'raises', ['labels=str', 'labels=tup', 'labels=ints'],
-        "%s works on nodes 0..N-1 but raises IndexError on string / tuple / arbitrary integer labels: _dSIS_individual_based_ indexes the state vector by node label (analytic.py:482)" % ent)
-    c14(ent, 'differs', ['labels=perm'],
-        "%s gives a different (wrong) solution when the integer labels are permuted: Y[node], Y[nbr] instead of the position in nodelist (analytic.py:482)" % ent)
-for ent in ('SIS_pair_based', 'SIR_pair_based', 'SIS_pair_based_pure_IC', 'SIR_pair_based_pure_IC'):
-    c14(ent, 'differs', ['labels=str+weight-attr', 'labels=perm+weight-attr', 'labels=tup+weight-attr'],
-        "%s changes its result when the edges carry an unrelated attribute named 'weight': nx.adjacency_matrix(G) picks it up and scales the initial pair probabilities XY0, XX0 (analytic.py:1264/1567)" % ent)
-for ent in ('SIS_pair_based_pure_IC', 'SIR_pair_based_pure_IC', 'SIS_pair_based', 'SIR_pair_based'):
-    c14(ent, 'differs', ['nodelist=1'],
-        "%s with an explicit nodelist depends on the insertion order of the nodes: nx.adjacency_matrix(G) is in G.nodes() order, the state vectors in nodelist order (analytic.py:1264/1567)" % ent)
+        "%s rejects a consistent state without I-I (and, SIR, without R) pairs by floating-point rounding: SS0+2*SI0 > n*N with n = sum(k*Pk[k]) a rounded float, e.g. 14 > 13.999999999999998 (analytic.py:2038/2128)" % ent)
 
 extra = os.path.join(V, 'tools', 'ic_findings_c14.json')
 if os.path.exists(extra):
     F += json.load(open(extra))
 json.dump({'findings': F}, open(os.path.join(V, 'proposed_known_findings.json'), 'w'), indent=1)
+if os.path.isdir(os.path.join(V, 'proposed')):
+    json.dump({'findings': F}, open(os.path.join(V, 'proposed', 'ic.json'), 'w'), indent=1)
 print(len(F), 'proposed findings')
 if '--install' in sys.argv:
     kp = os.path.join(V, 'known_findings.json')
